@@ -96,7 +96,7 @@ type Fixture struct {
 	PM  *map[string]int32 // pointer-injected map
 	PMI *map[int64]int64  // pointer-injected map with integer keys
 	PMS *map[string]string
-	PS  *[]int64          // pointer-injected slice
+	PS  *[]int64 // pointer-injected slice
 	PSU *[]uint16
 	PSF *[]float32
 	PA  *[5]int16 // pointer-injected array
@@ -240,14 +240,16 @@ func (f *Fixture) Table() map[string]interface{} {
 		"NF32": f.NF32, "NF64": f.NF64, "NS": f.NS, "NB": f.NB,
 		"PI8": f.PI8, "PI64": f.PI64, "PU16": f.PU16, "PU64": f.PU64, "PF32": f.PF32, "PF64": f.PF64, "PStr": f.PStr, "PB": f.PB,
 		// observers
-		"tr": func(id int64) { rec.add(id) },
-		"tv": func(id int64, v interface{}) { rec.add(id, v) },
-		"ti": func(id int64, a int8, b uint16, c int64, d uint64) int64 { rec.add(id, a, b, c, d); return c },
-		"tf": func(id int64, a float32, b float64) float64 { rec.add(id, a, b); return b },
-		"ts": func(id int64, s string, b bool) string { rec.add(id, s, b); return s },
-		"tu": func(id int64, a uint8, b uint32, c int, d uint) uint64 { rec.add(id, a, b, c, d); return uint64(b) },
+		"tr":  func(id int64) { rec.add(id) },
+		"tv":  func(id int64, v interface{}) { rec.add(id, v) },
+		"ti":  func(id int64, a int8, b uint16, c int64, d uint64) int64 { rec.add(id, a, b, c, d); return c },
+		"tf":  func(id int64, a float32, b float64) float64 { rec.add(id, a, b); return b },
+		"ts":  func(id int64, s string, b bool) string { rec.add(id, s, b); return s },
+		"tu":  func(id int64, a uint8, b uint32, c int, d uint) uint64 { rec.add(id, a, b, c, d); return uint64(b) },
 		"t16": func(id int64, a int16, b int32) int32 { rec.add(id, a, b); return b },
 		"idn": func(v int64) int64 { return v },
+		// tb observes the evaluation of a condition: a condition evaluated twice shows twice in the trace
+		"tb":  func(id int64, b bool) bool { rec.add(id, b); return b },
 		"ix1": int64(1),
 	}
 	return t
